@@ -61,7 +61,8 @@ def check(run):
     # archive: index, dat entries of each kind, and a whole installation
     idx = sqpack.index_file(1, [{"path": "exd/root.exl", "dat": 0, "off": 2048}, {"path": "exd/a.exh", "dat": 1, "off": 4096}])
     bases.append(faults.base("index:two", "index.open", idx, [(8, 1), (12, 4), (16, 4), (20, 4), (1024, 4), (1028, 4), (1032, 4), (1036, 4), (1104, 4), (1108, 4), (1112, 4),
-                                                             (1180, 4), (1184, 4), (1252, 4), (1256, 4), (1320, 4), (1324, 4), (2048, 4), (2052, 4), (2056, 4)], path_fault="none"))
+                                                             (1180, 4), (1184, 4), (1252, 4), (1256, 4), (1320, 4), (1324, 4), (2048, 4), (2052, 4), (2056, 4)]
+                             + [(o, 4) for o in range(2048 + 32, len(idx) - 3, 4)], path_fault="none"))
     from checks.c02 import std, tex, mdl as mdl_entry
     for name, d in (("std", std(rng, [100, 200], ["raw", "dynamic"])), ("tex", tex(rng, 80, [[300, 100], [64]], ["stored", "raw", "fixed"])),
                     ("mdl", mdl_entry(rng, [1, 1, 1, 1, 0, 0, 1, 1], [200] * 6, ["raw", "dynamic", "stored", "fixed", "raw", "dynamic"], 3))):
@@ -158,7 +159,7 @@ def check(run):
     for k in (0, 1, 1023, 1024, 2047, 2048, 2052, 2060, 2100, 2176):
         extra.append(inst_line("dat-truncated-%d" % k, cut(isdat, k)))
         extra.append(inst_line("index-truncated-%d" % k, cut(isidx, k)))
-    for stray in ("e", "ex", "exx", "ffxiv2", "ex1.bak", "éx1"):
+    for stray in ("e", "ex", "exx", "ffxiv2", "ex1.bak", "éx1", "exé", "eé", "ex\u00e9\u00e9", "e\u20ac"):
         extra.append(inst_line("stray-dir-" + stray, lambda fs, s=stray: fs + [{"p": "sqpack/" + s}]))
     extra.append(inst_line("sqpack-missing", lambda fs: []))
     # garbled deflate streams inside a texture entry (the one entry kind whose reader reports a failed block as None):
